@@ -33,6 +33,10 @@ func expType(m *Model, t *Table, c *Col, depth int) string {
 	if c.Auto {
 		return "bigint"
 	}
+	if c.Named != "" || c.Coll != "" {
+		// no SQL counterpart: the default type, as for every primitive the type table does not list
+		return "varchar (50)"
+	}
 	switch c.Prim {
 	case "string":
 		if c.Size > 0 {
@@ -206,6 +210,8 @@ func colChange(o, n *Model, tn string, oc, nc *Col) string {
 		k = append(k, "ref-dropped")
 	case oc.Ref != nil && nc.Ref != nil && *oc.Ref != *nc.Ref:
 		k = append(k, "ref-retargeted")
+	case oc.Ref == nil && nc.Ref == nil && (oc.kind() != nc.kind() || oc.Named != nc.Named || oc.Coll != nc.Coll || oc.Elem != nc.Elem):
+		k = append(k, "rekind:"+oc.kind()+"->"+nc.kind())
 	case oc.Ref == nil && nc.Ref == nil && (oc.Prim != nc.Prim || oc.Size != nc.Size):
 		k = append(k, "retyped")
 	}
@@ -520,4 +526,57 @@ func typeCause(o, n *Model, tn, cn string) string {
 		}
 	}
 	return "other:" + colOrigin(o, n, tn, cn)
+}
+
+// judgePaths: the delta path and the creation path define a column of the new version the same way.  Judged for the
+// columns whose type does not depend on other columns (primitives, named types, sets and sequences); the type of a
+// Table.column reference is the referenced column's and is judged through the catalog (judgeDelta).
+func judgePaths(c *common.Ctx, n *Model, dstmts, nstmts []stmt, rp replay) {
+	created := map[string]*stmt{}
+	for i := range nstmts {
+		if nstmts[i].Kind == "create" {
+			created[nstmts[i].T] = &nstmts[i]
+		}
+	}
+	typeIn := func(s *stmt, col string) (string, bool) {
+		for _, d := range s.Cols {
+			if d[0] == col {
+				return d[1], true
+			}
+		}
+		return "", false
+	}
+	for i := range dstmts {
+		d := &dstmts[i]
+		t := n.table(d.T)
+		ref := created[d.T]
+		if t == nil || ref == nil {
+			continue
+		}
+		var cols [][2]string
+		switch d.Kind {
+		case "create":
+			cols = d.Cols
+		case "addcol":
+			cols = [][2]string{{d.C, d.Ty}}
+		default:
+			continue
+		}
+		for _, def := range cols {
+			mc := t.col(def[0])
+			if mc == nil || mc.Ref != nil {
+				continue
+			}
+			want, ok := typeIn(ref, def[0])
+			if ok && want != def[1] {
+				where := "ADD COLUMN"
+				if d.Kind == "create" {
+					where = "the CREATE TABLE of the added table"
+				}
+				c.Fail("delta:definition-differs:"+mc.kind(), fmt.Sprintf("column %s.%s (%s) is defined as %q by %s in the delta script and as %q by the creation script of the same version",
+					d.T, def[0], mc.typeText(), def[1], where, want), rp)
+				return
+			}
+		}
+	}
 }
